@@ -100,3 +100,10 @@ for _s, _file, _fn, _ch, _def, _props in (("html", "html.c", "mmd_print_string_h
       bounds={"string length<=": 5, "bytes": "full domain", "unwind": 8}, functions=[_fn],
       callees={_ch: "contract stub recording the call trace (its own contract: esc_char_*)", "d_string_*": "contract stubs with precondition false (not called by the string printer)"},
       min_obligations=8, timeout=300, cost=5, assumptions=["configuration -DI18N_DISABLED"])
+
+# 5. beamer sectioning groups: representation invariant between the outline stack and the groups open in the output
+U("beamer_outline_groups", ["C04"], "h_outline", ["C04/outline_beamer.c"], ["beamer.c", "stack.c"], plain=True, lib=(), kind="bounded", drop_bodies=["stack_push"],
+  defines=["-DI18N_DISABLED=1"], cbmc_flags=["--unwind", "26", "--unwinding-assertions", "--object-bits", "12"],
+  bounds={"headings on the outline stack<=": 2, "heading kinds, current heading, base header level": "symbolic", "unwind": 26},
+  functions=["mmd_outline_add_beamer"], callees={"d_string_append*": "contract stubs classifying the literal printed (ghost group counters)", "pad": "no-op stub", "stack_push": "contract stub (C18)", "stack_peek/pop/new": "body"},
+  min_obligations=10, timeout=300, cost=10, assumptions=[NOFAIL])
